@@ -21,7 +21,7 @@ import (
 )
 
 func TestMain(m *testing.M) {
-	vstat.Rule("Condition expressions from the grammar E := E && E | E || E | (E) | NetworkErrorRatio() op FLOAT | ResponseCodeRatio(a,b,c,d) op FLOAT | LatencyAtQuantileMS(q) op INT (six comparisons, minimal parentheses so precedence matters, nesting <= 3); generated check/fallback/recovery durations; histories of clock advances and responses completing with status from {200,201,404,500,502,503,504} and latency = clock advance while in the gate, overlapping completions around trips, several trip/recovery cycles. Oracle: independent three-valued evaluator over the oracle's own record of responses completed since the last trip (counter window: every cut-off between 9 s and 10 s of age; latency histogram: every suffix containing the last 50 s; quantile rank between floor and ceil of q*n/100; 3%+1.5ms band for latency thresholds, 1e-9 for ratios). At every completion that is definitely an evaluation point (later than the previous evaluation + check period) with a definite value: breaker becomes tripped iff the value is true; where it is definitely not an evaluation point the state must not change; unknown values adopt the observation. on-tripped/on-standby run exactly once per observed transition. Non-trivial: >= 2 atoms of different kinds and >= 1 definite-true and >= 1 definite-false evaluation. A third of the drivers have side effects that hang until the case ends (every transition must still start its effect).")
+	vstat.Rule("Condition expressions from the grammar E := E && E | E || E | (E) | NetworkErrorRatio() op FLOAT | ResponseCodeRatio(a,b,c,d) op FLOAT | LatencyAtQuantileMS(q) op INT (six comparisons, minimal parentheses so precedence matters, nesting <= 3); generated check/fallback/recovery durations; histories of clock advances and responses completing with status from {200,201,404,500,502,503,504} and latency = clock advance while in the gate, overlapping completions around trips, several trip/recovery cycles. Oracle: independent three-valued evaluator over the oracle's own record of responses completed since the last trip (counter window: every cut-off between 9 s and 10 s of age; latency histogram: every suffix containing the last 50 s; quantile rank between floor and ceil of q*n/100; 3%+1.5ms band for latency thresholds, 1e-9 for ratios). At every completion that is definitely an evaluation point (later than the previous evaluation + check period) with a definite value: breaker becomes tripped iff the value is true; where it is definitely not an evaluation point the state must not change; unknown values adopt the observation. on-tripped/on-standby run exactly once per observed transition. Non-trivial: >= 2 atoms of different kinds and >= 1 definite-true and >= 1 definite-false evaluation. A third of the drivers have side effects that hang until the case ends (every transition must still start its effect). TestC18_ConcurrentTransitions: 3-20 cycles; a burst of 2-16 simultaneous failing requests trips the breaker, a burst of simultaneous requests just past the recovery period returns it to standby; the breaker's Logger yields and moves the clock by 1 us while armed; on-tripped and on-standby ran exactly once per cycle. Histories include exchanges lasting 72 min-26 h.")
 	vstat.Main(m.Run)
 }
 
@@ -214,7 +214,7 @@ func runCase(t *rapid.T, e node) {
 	}
 	n := rapid.IntRange(3, 70).Draw(t, "nsteps")
 	for i := 0; i < n; i++ {
-		switch rapid.IntRange(0, 12).Draw(t, "op") {
+		switch rapid.IntRange(0, 13).Draw(t, "op") {
 		case 0, 1, 2:
 			start()
 		case 3, 4, 5:
@@ -250,6 +250,29 @@ func runCase(t *rapid.T, e node) {
 					finish(len(d.InFlight)-1, rapid.SampledFrom([]int{200, 200, 201, 404}).Draw(t, "longStatus"))
 				}
 				adv(10000 + rapid.Int64Range(0, 1500).Draw(t, "longGap"))
+			}
+		case 13: // a long quiet spell (no completions for several histogram periods), then a run of fast and slow responses
+			if prev == "standby" && len(d.InFlight) == 0 {
+				adv(rapid.SampledFrom([]int64{20000, 35000, 61000, 125000, 600000}).Draw(t, "quiet"))
+				fastFirst := rapid.Bool().Draw(t, "fastFirst")
+				nf, ns := rapid.IntRange(3, 8).Draw(t, "nFast"), rapid.IntRange(3, 8).Draw(t, "nSlow")
+				slow := rapid.SampledFrom([]int64{150, 400, 1200}).Draw(t, "slowMs")
+				run := func(n int, lat int64) {
+					for i := 0; i < n && prev == "standby"; i++ {
+						start()
+						adv(lat)
+						if len(d.InFlight) > 0 {
+							finish(len(d.InFlight)-1, 200)
+						}
+					}
+				}
+				if fastFirst {
+					run(nf, 1)
+					run(ns, slow)
+				} else {
+					run(ns, slow)
+					run(nf, 1)
+				}
 			}
 		case 12: // an exchange that lasts hours (a long-lived stream, a hung backend that finally answers)
 			if prev == "standby" {
